@@ -1,0 +1,9 @@
+//go:build !verif
+
+// Package verifpoint provides named schedule / observation points for the
+// model-based verification harness. Without the "verif" build tag every call
+// compiles to an empty inlinable function.
+package verifpoint
+
+// At marks a named point. key identifies the operation instance (e.g. a query id).
+func At(point string, key uint32) {}
